@@ -50,6 +50,7 @@ class Ctx:
         self.units = {'files': self.repo.n_files, 'functions_evaluated': 0}
         self.extra = {}
         self._rule = None
+        self._missing_nested = {}
 
     # -- recording -----------------------------------------------------------
     def _rec(self, status, rule, instance, where, found, expected, reason, key=None):
@@ -91,8 +92,32 @@ class Ctx:
             self.assumptions.append(msg)
 
     def fa(self, qualname):
-        fa = self.A(qualname)
-        return fa
+        try:
+            return self.A(qualname)
+        except AnalysisError:
+            # A nested function the rules are stated on is gone although its enclosing function is
+            # still there: the enclosing function was rewritten without it.  What the nested function
+            # did (its effects under its conditions) then has no counterpart of that role - a changed
+            # mechanism, reported as a violation of the obligations stated on it (the comparison of the
+            # enclosing function, which runs as well, shows what it does instead).  The rules that read
+            # the nested function go on with an empty stand-in.
+            if '.<locals>.' not in qualname:
+                raise
+            parent = qualname.rsplit('.<locals>.', 1)[0]
+            if not self.repo.has_func(parent):
+                raise
+            if qualname not in self._missing_nested:
+                pfi = self.repo.func(parent)
+                self.bad('ANCHOR.nested-function', qualname.replace('cooler.', ''),
+                         f'{os.path.relpath(pfi.file, self.repo.root)}:{pfi.lineno} {pfi.qualname}',
+                         found='no nested function of that role in the enclosing function',
+                         expected=f'nested function {qualname.rsplit(".", 1)[1]} (the property\'s rules are stated on its effects)',
+                         reason='the enclosing function was rewritten without the nested function that carried part of the mechanism',
+                         key=f'ANCHOR.nested-function|{qualname}')
+                from .refcompare import analyze_source
+                self._missing_nested[qualname] = analyze_source(
+                    self.repo, pfi.module.name, 'def missing(*args, **kwargs):\n    pass\n', qual=qualname)
+            return self._missing_nested[qualname]
 
     def where(self, fa, ev=None):
         line = ev.line if ev is not None else fa.fi.lineno
